@@ -285,6 +285,40 @@ fn check_node(n: &Node, pr: &Progs) -> Vec<(String, String, String)> {
             }
         }
     }
+    // ---------- the resets are also public on the RawMachine inside (`raw_mut()`): the same resets ----------
+    {
+        let (mut a, mut b) = (m.clone(), m.clone());
+        a.cpu_reset();
+        b.raw_mut().cpu_reset();
+        if a != b {
+            bad.push(("cpu-reset/raw-door-differs".into(), format!("Machine::cpu_reset and RawMachine::cpu_reset (through raw_mut()) leave different machines: outputs {:#04x}/{:#04x} vs {:#04x}/{:#04x}, key-edge enable {} vs {}", a.bus().output_fe(), a.bus().output_ff(), b.bus().output_fe(), b.bus().output_ff(), a.bus().is_key_edge_int_enabled(), b.bus().is_key_edge_int_enabled()), "CpuReset".into()));
+        }
+        // the other thin wrappers of Machine: key interrupt, continue, input registers, board inputs
+        let doors: [(&str, fn(&mut Machine), fn(&mut Machine)); 8] = [
+            ("trigger_key_interrupt", |x| x.trigger_key_interrupt(), |x| x.raw_mut().trigger_key_edge_interrupt()),
+            ("trigger_key_continue", |x| x.trigger_key_continue(), |x| x.raw_mut().trigger_key_continue()),
+            ("set_input_fc", |x| x.set_input_fc(0x3C), |x| x.raw_mut().bus_mut().input_fc(0x3C)),
+            ("set_input_ff", |x| x.set_input_ff(0xC3), |x| x.raw_mut().bus_mut().input_ff(0xC3)),
+            ("set_digital_input1", |x| x.set_digital_input1(0x99), |x| x.raw_mut().bus_mut().board_mut().set_digital_input1(0x99)),
+            ("set_jumper1", |x| x.set_jumper1(true), |x| x.raw_mut().bus_mut().board_mut().set_jumper1(true)),
+            ("set_analog_input1", |x| x.set_analog_input1(2.5), |x| x.raw_mut().bus_mut().board_mut().set_analog_input1(2.5)),
+            ("set_universal_input_output2", |x| x.set_universal_input_output2(true), |x| x.raw_mut().bus_mut().board_mut().set_universal_input_output2(true)),
+        ];
+        for (name, f, g) in doors {
+            let (mut a, mut b) = (m.clone(), m.clone());
+            f(&mut a);
+            g(&mut b);
+            if a != b {
+                bad.push(("doors/machine-wrapper-differs".into(), format!("Machine::{} and the call it wraps (through raw_mut()) leave different machines", name), "none".into()));
+            }
+        }
+        let (mut a, mut b) = (m.clone(), m.clone());
+        a.master_reset();
+        b.raw_mut().master_reset();
+        if a != b {
+            bad.push(("master-reset/raw-door-differs".into(), "Machine::master_reset and RawMachine::master_reset (through raw_mut()) leave different machines".into(), "MasterReset".into()));
+        }
+    }
     // ---------- (2) master_reset ----------
     {
         let mut r = m.clone();
